@@ -1,5 +1,5 @@
 """C04 — emitted DirectX HLSL is accepted by the front end and is a fixpoint."""
-# streams of `harness c04`: C04.fix (whole-program byte fixpoint: decl / gen / lit / disk / text), C04.reelab (second IR
+# streams of `harness c04`: C04.fix (whole-program byte fixpoint: decl / gen / lit / tpl / disk / text), C04.reelab (second IR
 # against the elaboration model), C04.names (name resolution of the emitted paths against Model.FixpointNames)
 import os
 import subprocess
@@ -65,7 +65,7 @@ def _source_of(ident):
             return bytes.fromhex(ident[5:]).decode("utf-8", "replace")
         except ValueError:
             return None
-    if ident.startswith(("lit:", "gen:", "decl:")):
+    if ident.startswith(("lit:", "gen:", "decl:", "tpl:")):
         try:
             r = subprocess.run([_harness_exe(), "c04", "source", ident], capture_output=True, text=True, timeout=60)
         except Exception:
@@ -156,6 +156,13 @@ SEARCH_SOURCES = [
     "namespace W { static int v; int get() { return v; } }\nint user(int W) { int v = W; return v + ::W::v + ::W::get(); }\n",
     "enum E { A = 2, B = A + 1, C = B };\nnamespace N { cbuffer CB { int cbm; } template<int K> int tv() { return K + cbm; } enum F { P = 1, Q = P << 1 }; }\n"
     "int useall() { return (int)B + N::tv<3>() + (int)N::Q; }\n",
+    # template value arguments (seeded mutant C04-4): the kind recorded for a literal argument must be the kind its printed
+    # spelling is read back with; the parameter is combined with untyped literals in int / uint / float contexts
+    'template<int N> int f(int x) { int y = N + 1; return x + y; }\nint user() { return f<3>(1); }\n',
+    'template<int N> int f(int x) { int y = N + 1; for (int i = 0; i < N + 1; ++i) { x += N << 1; } return x + y; }\ntemplate<typename T, T A> T g(T x) { T y = A + 1; return x * A + y; }\ntemplate<bool B> int h(int x) { return B ? x + 1 : 2; }\ntemplate<typename T> T tw(T x) { return x + x + 1; }\nint user() { return f<3>(1) + f<2 + 1>(2) + f<3u>(3) + g<int, 5>(1) + (int)g<float, 2>(1.5) + (int)g<uint, 2u>(1u) + h<true>(1) + tw(1) + (int)tw(1.5) + (int)tw(2u); }\n',
+    # siblings: enum values, constants folded into array sizes / case labels, static const initialisers, default parameter
+    # values, literal arguments of overloaded functions and intrinsics
+    'enum E { A = 2, B = A + 1, C = 1 << 3, D = 0x10u, F = -1 };\nstatic const int K = 4;\nstatic const uint KU = 3u;\nstatic const int K2 = K + 1;\nstatic const float KF = K * 2;\nstatic float garr[K + 1];\nstatic int garr2[KU];\nstatic int garr3[B];\nint d(int a = 3, uint b = 2, float c = 1, int e = K + 1) { return a + (int)b + (int)c + e; }\nint pick(int a) { return 1; }\nint pick(float a) { return 3; }\nint user(int v) {\n    float arr[K * 2];\n    int arr2[2 + 2];\n    int r = d() + d(1) + d(1, 2) + d(1, 2u, 3);\n    r += pick(K + 1) + pick(1 + 1) + pick((int)B + 1) + pick(KF);\n    r += min(K, 2) + max(1, 2) + (int)min(KU, 2) + (int)clamp(v, 0, 10) + (int)pow(2, 3) + abs(-3) + (int)lerp(0, 1, 0.5);\n    switch (v) { case K: r += 1; break; case K + 1: r += 2; break; default: break; }\n    int e = (int)A + 1; uint eu = (uint)B + 1u; float ef = (int)C * 1.5;\n    E ev = (E)1;\n    return r + e + (int)eu + (int)ef + (int)ev;\n}\n',
 ]
 
 
@@ -201,9 +208,39 @@ TEMPLATE_LOOKAHEAD_KEY = "rejected-by-parser: less-than ... greater-than followe
 CBUFFER_LEAF_KEY = "rejected: member of a cbuffer declared in a namespace is printed by its leaf name outside the namespace"
 
 
+TPL_INT32_KEY = ("not-fixpoint: a template value argument of kind Int32 is printed bare at the call site and read back as "
+                 "an int literal")
+
+
+def _typed_int_template_arguments_only(src):
+    """free-form source (corpus reproducer): there are template instantiations with value arguments and every one of them
+    has an argument of kind Int32 - a cast `(int)..` or a `static const int` name"""
+    import re
+    consts = set(re.findall(r"static\s+const\s+int\s+(\w+)", src))
+    inst = re.findall(r"\b\w+<([^<>;{}]*)>\s*\(", src)
+    inst = [a for a in inst if not re.fullmatch(r"\s*(int|uint|float|bool|half|double)\d?(x\d)?\s*", a)]
+    if not inst:
+        return False
+    for a in inst:
+        if "(int)" in a:
+            continue
+        if any(re.search(r"\b%s\b" % re.escape(c), a) for c in consts):
+            continue
+        return False
+    return True
+
+
 def finding_key(req, obs, detail):
     # key by the first differing line class / rejection message, not by the whole program
     import re
+    if req.startswith("C04.fix\ttpl:") and "[tpl: int32-template-argument-printed-bare]" in (detail or ""):
+        # named by the generator's own record of argument kinds (harness/src/c04/tmpl.rs classify): the first differing
+        # line lies in an instance every call of which was written with an Int32 argument
+        return TPL_INT32_KEY
+    if req.startswith("C04.fix\ttext:") and "second generation differs" in (detail or "") and "(int)(" in (detail or ""):
+        src = _source_of(req.split("\t")[1]) or ""
+        if _typed_int_template_arguments_only(src):
+            return TPL_INT32_KEY
     if req.startswith("C04.names\t"):
         # the class the harness's scope simulation names, else the specific descriptor (the printed names are derived)
         return _names_class(detail) or "C04.names\t" + req.split("\t")[1]
@@ -231,7 +268,7 @@ def finding_key(req, obs, detail):
 
 SPEC = {
     "id": "C04",
-    "gens": ["SlotTables", "FixpointTables", "PathLookup", "RankTable", "TypingTables", "HlslGenTables", "HlslIntrinsicTables",
+    "gens": ["SlotTables", "FixpointTables", "PathLookup", "TemplateConst", "RankTable", "TypingTables", "HlslGenTables", "HlslIntrinsicTables",
              "MetaTables", "CompileTables"] + LEG_GENS,
     "lean_modules": ["RsslVerif.Thm.C04"] + LEG_MODULES,
     "theorems": [T + n for n in [
@@ -246,14 +283,24 @@ SPEC = {
         "path_lookup_as_modelled", "emitPath_relative", "noCloserMatch_of_noInnerHomonym",
         "emitted_path_resolves_of_no_closer_match", "emitted_path_resolves_to_same_entity",
         "pathsResolveBack_of_no_closer_match", "machine_tables_wf", "mutant_discipline_loses_emitted_path",
-        "emitted_path_captured_witness", "namesAgree_of_pathsResolveBack", "fixpoint_expr_paths"]] + LEG_THEOREMS,
+        "emitted_path_captured_witness", "namesAgree_of_pathsResolveBack", "fixpoint_expr_paths",
+        # the kind of a template value argument through export and re-compilation (Model.FixpointTemplate)
+        "template_const_as_modelled", "emitted_literal_kind_stable", "template_instance_reelab",
+        "template_instance_reelab_stmt", "emitted_literal_kind_int32_witness", "mutant_discipline_loses_literal_kind"]] + LEG_THEOREMS,
     "harness": "c04",
     "custom": custom,
     "nontrivial": nontrivial,
     "finding_key": finding_key,
     "shrink": shrink,
     "search": search,
-    "rule": "C04.fix: programs = type-directed generated sources using every declaration kind (enum, struct with method, static/"
+    "rule": "C04.fix tpl: function templates with value parameters (int / uint / bool, `typename T, T N`, two parameters) and type "
+            "parameters deduced from literal arguments; bodies combine the parameter with untyped literals in int / uint / float "
+            "contexts (initialisers, compound assignments, operands, loop bounds, ?:, case labels, overloaded-function and intrinsic "
+            "arguments, unary operators, array sizes); arguments are unsuffixed / suffixed literals and literal expressions, bools "
+            "and (1 program in 4) typed constants / casts; plus sibling shapes (enum values, constants folded into array sizes, "
+            "static const initialisers, default parameter values, case labels from constants, literal arguments of overloads and "
+            "intrinsics); every call carries its ordinal, the generator's own record of argument kinds names the one known class "
+            "(an Int32 argument printed bare), any other failure is a violation. C04.fix: programs = type-directed generated sources using every declaration kind (enum, struct with method, static/"
             "groupshared globals, cbuffer with register, resources of 16 object types with register/space annotations and "
             "bind-group attributes, arrays, function template, namespace, overloads, default / out / inout parameters, every "
             "statement form, casts, swizzles, intrinsics) + resource/pipeline programs + the literal stream (numeric literals of "
@@ -317,9 +364,19 @@ SPEC = {
                   "relative-path-resolves-elsewhere). path_lookup_as_modelled pins the bodies of find_identifier, walk_into_scopes, "
                   "scoped_name_to_identifier, the start scope per base, the emitted base and the stage / arm structure of "
                   "find_identifier_in_scope to the re-extracted Gen.PathLookup; the C04.names stream compares the model's lookups "
-                  "(positive and negative, both generations) with the real compiler. The legs' property theorems (C10 literals, C09 round trip, C15 "
+                  "(positive and negative, both generations) with the real compiler. "
+                  "(6) Kind of constants: emitted_literal_kind_stable - every constant kind except Int32 is read "
+                  "back from its spelling with the kind the IR constant had; a template value argument written as a literal is "
+                  "recorded (parse_and_evaluate_constant_expression, find_overload_casts: re-extracted by Gen.TemplateConst, "
+                  "template_const_as_modelled) with a kind that is not Int32, the constant substituted inside the instance has that "
+                  "kind and the second compilation records it again; template_instance_reelab(_stmt): for such a kind the instance "
+                  "body (substValue over any expression of the C03 model) is a parser-producible tree again, so (1) applies to it; "
+                  "emitted_literal_kind_int32_witness: for an Int32 argument (f<K>, f<(int)3>) the call site prints a bare literal, "
+                  "`int y = N + 1` is Add(Int32, Int32) first and Cast(int, Add(IntLiteral, IntLiteral)) second (known finding, "
+                  "reproducers in the corpus); mutant_discipline_loses_literal_kind: recording a literal argument as Int32 (seeded "
+                  "mutant C04-4) puts f<3> into that case. The legs' property theorems (C10 literals, C09 round trip, C15 "
                   "names) and their Gen tables are obligations of C04. Partial: structural statements, declarations, structs, "
-                  "templates, intrinsic calls and the text leg of trees with casts are not in a Lean composition theorem; they are "
+                  "template instantiation itself (naming of instances, headers, loops / switch / array sizes in instance bodies), intrinsic calls and the text leg of trees with casts are not in a Lean composition theorem; they are "
                   "exercised by the whole-program fixpoint run and the re-elaboration stream.",
     "trusted_base": [
         "Lean 4.33 kernel; axioms propext / Classical.choice / Quot.sound only (audited by #print axioms)",
@@ -334,6 +391,10 @@ SPEC = {
         "parse_expr_internal does with each syntax node before typing), rereadConst / negConst / retagTo (payloads; tied by "
         "reread_payloads_as_modelled and by the value-level byte comparison of the correspondence runs)",
         "tools/gens/c04.py (FixpointTables: parse_literal, the to_literal test of the Cast arm, the literal shortcut of apply)",
+        "Model/FixpointTemplate.lean (restrictKind / recordKind / instanceKind / secondRecordKind / substValue: the way of a template "
+        "value argument) - tied by template_const_as_modelled (tools/gens/c04.py TemplateConst) and by the C04.fix tpl stream "
+        "through the property's own oracle; the generator's record of argument kinds (harness/src/c04/tmpl.rs Kind, classify) is "
+        "trusted for naming the known class only",
         "the C04.reelab correspondence run: the model's prediction of the second-generation IR skeleton vs the real front end on the "
         "real emitted text",
         "Model/FixpointNames.lean (scope table, walkInto / findInScope / find, the descriptor machine exec = symbol insertion of "
@@ -353,6 +414,8 @@ SPEC = {
         "the names model has no overload sets with more than one function, no templates, no cbuffers and no struct-qualified "
         "paths (the code has none either: walk_into_scopes enters namespaces and enums only); those are exercised by the "
         "free-form sources of the corpus / search list through the whole-program oracle",
+        "the constant evaluator keeps the kind of a literal and of a negated literal (C02's evaluator model): assumed by "
+        "secondRecordKind; 64-bit template arguments are outside the Scalar model (parse_literal refuses 64-bit literals)",
         "the print / parse round trip of exported trees that contain casts is assumed (ParsesBack): C09's model has no cast node",
         "in the second generation no pipeline is selected (default bind group 0), as in the property's observation point",
     ],
